@@ -34,4 +34,20 @@ Section Check.
         ++ b2s (bag_eqb s got) ++ b2s ms ++ b2s (explicit (wc_spec k)) ++ "0"
     | None => "00" ++ b2s ms ++ b2s (explicit (wc_spec k)) ++ "1"
     end.
+
+  (** the same verdict for a spec given as the list of builder calls the user made: the model builds it with the
+      implementation's (regenerated) replace/append behaviour, the specification with Spark's *)
+  Variable part_replaces order_replaces : bool.
+  Definition check_plan (input : frame) (plan : list sstep) (f : wfun) (impl : option (list row)) : string :=
+    let um := build part_replaces order_replaces plan in
+    let us := spark_build plan in
+    let m := model_rows (mkWCase input um f impl) in
+    let s := spark_rows (mkWCase input us f impl) in
+    let ms := match m with Some mr => bag_eqb mr s | None => false end in
+    match impl with
+    | Some got =>
+        b2s (match m with Some mr => bag_eqb mr got | None => false end)
+        ++ b2s (bag_eqb s got) ++ b2s ms ++ b2s (explicit us) ++ "0"
+    | None => "00" ++ b2s ms ++ b2s (explicit us) ++ "1"
+    end.
 End Check.
